@@ -35,6 +35,14 @@ def runs3_consts():
                       SaveFails=[False])
 
 
+def samefault_consts():
+    """the same capture fault (same call, same key) in two successive recorded runs of one recorder, then a replay of what
+    is stored: each run is discarded on its own account"""
+    return gen_consts(1, MaxRuns=3, MaxRecs=2, InCalls=[('ia2', 1), ('ia1', 1)], OutAliases=['oa2'], Classes=[K('K1')],
+                      Draws=['low'], Bodies=['plain'], InFaults=['none', 'prepFail', 'keyFail'], OutFaults=['none', 'prepFail'],
+                      OutResults=[('val', 'v1')], Ctl=[], Ends=['ret'], SaveFails=[False])
+
+
 def forced_zero_consts():
     """a class that is never sampled (rate 0: record on demand) whose recording is forced *after* interceptions have
     already happened: what is saved holds every interception of the run"""
@@ -46,7 +54,8 @@ def forced_zero_consts():
 def run(rep, tier, seed):
     rep.rule = ('behaviours = root-to-terminal paths of the TLC state graph of Recorder.tla (operation programs x '
                 'capture faults x discards x sampling outcomes x termination modes, then a same-program replay of '
-                'what was stored); replayed into the real TapeRecorder over a spy-wrapped cassette. non-trivial = '
+                'what was stored; histories with an interrupted / discarded run first, and with the same capture fault in two '
+                'successive runs); replayed into the real TapeRecorder over a spy-wrapped cassette. non-trivial = '
                 'contains a capture fault, discard, interrupt, failing save, or a sampled-out/discarded decision; '
                 'distinct = different event sequence')
     rep.assumptions = ['one operation at a time per recorder', 'enable/disable not toggled during an operation',
@@ -61,6 +70,7 @@ def run(rep, tier, seed):
                          cassettes=('memory', 'async'), n_conc=1, sample=1500)
             chk.generate('gen3runs', runs3_consts(), cassettes=('memory', 'file'), n_conc=1, sample=2000, cap=5000)
             chk.generate('forcedzero', forced_zero_consts(), cassettes=('memory', 'file'), n_conc=1, all_paths=True, cap=20000)
+            chk.generate('samefault', samefault_consts(), cassettes=('memory',), n_conc=1, all_paths=True, cap=20000)
             rep.exhaustive = bool(ex)
         else:
             chk.check('chk', gen_consts(4, Vals=['v1', 'v2']), invariants=INVS, timeout=3000)
@@ -71,6 +81,7 @@ def run(rep, tier, seed):
             chk.generate('gen2async', gen_consts(2), cassettes=('async',), n_conc=1, all_paths=True)
             chk.generate('gen3runs', runs3_consts(), cassettes=('memory', 'file'), n_conc=1, all_paths=True, cap=200000)
             chk.generate('forcedzero', forced_zero_consts(), cassettes=('memory', 'file', 's3'), n_conc=2, all_paths=True, cap=20000)
+            chk.generate('samefault', samefault_consts(), cassettes=('memory', 'file'), n_conc=2, all_paths=True, cap=40000)
             rep.exhaustive = bool(ex)
     finally:
         chk.close()
